@@ -25,7 +25,7 @@ fn number_of(r: Result<Value, xml_xpath::eval::error::Error>) -> f64 {
     }
 }
 
-//@harness name=c09_floor fn=xpath::func::floor ob=largest_integer_not_greater kind=complete inputs=x:f64n op=xpath.func.floor props=C09
+//@harness name=c09_floor fn=xpath::func::floor ob=largest_integer_not_greater kind=complete inputs=a0:f64n op=xpath.func.floor props=C09
 //@        claim="for every f64 x: floor(x) is NaN/inf/zero-preserving, integral, r <= x < r + 1"
 #[kani::proof]
 fn c09_floor() {
@@ -42,7 +42,7 @@ fn c09_floor() {
     }
 }
 
-//@harness name=c09_ceiling fn=xpath::func::ceiling ob=smallest_integer_not_less kind=complete inputs=x:f64n op=xpath.func.ceiling props=C09
+//@harness name=c09_ceiling fn=xpath::func::ceiling ob=smallest_integer_not_less kind=complete inputs=a0:f64n op=xpath.func.ceiling props=C09
 //@        claim="for every f64 x: ceiling(x) is NaN/inf/zero-preserving, integral, r - 1 < x <= r"
 #[kani::proof]
 fn c09_ceiling() {
@@ -59,7 +59,7 @@ fn c09_ceiling() {
     }
 }
 
-//@harness name=c09_round fn=xpath::func::round ob=closest_integer_ties_to_positive_infinity kind=complete inputs=x:f64n op=xpath.func.round props=C09
+//@harness name=c09_round fn=xpath::func::round ob=closest_integer_ties_to_positive_infinity kind=complete inputs=a0:f64n op=xpath.func.round props=C09
 //@        claim="for every f64 x: round(x) is the closest integer, ties towards +infinity; NaN, +-inf, +-0 unchanged; [-0.5, 0) gives -0"
 #[kani::proof]
 fn c09_round() {
@@ -78,4 +78,214 @@ fn c09_round() {
         assert!(r == r.trunc());
         assert!(d <= 0.5 && d > -0.5);
     }
+}
+
+// ---------------------------------------------------------------------------------------------------------------
+// Coercions, operators and comparisons on scalar operands. One harness per CONCRETE operand kind (a symbolic
+// Boolean|Number tag through Vec<Value> did not finish under Kani, DESIGN section 8.4); within a kind the payload is
+// fully symbolic (every f64 / both bools), loop-free => complete.
+
+fn bool_of(r: Result<Value, xml_xpath::eval::error::Error>) -> bool {
+    match r {
+        Ok(Value::Boolean(v)) => v,
+        _ => panic!("not a boolean result"),
+    }
+}
+
+/// XPath 1.0 section 4.3: a number is true iff it is neither zero (positive or negative) nor NaN
+fn spec_boolean_of_number(x: f64) -> bool {
+    !(x == 0.0 || x.is_nan())
+}
+
+//@harness name=c09_boolean_number fn=xpath::func::boolean ob=number_is_true_iff_nonzero_and_not_nan kind=complete inputs=a0:f64n op=xpath.func.boolean props=C09
+//@        claim="for every f64 x: boolean(x) and not(x) follow XPath 4.3 (zero, negative zero and NaN are false)"
+#[kani::proof]
+fn c09_boolean_number() {
+    let x: f64 = kani::any();
+    kani::cover!(x.is_nan());
+    let mut c = Context::default();
+    let b = bool_of(fh::boolean(vec![Value::Number(x)], inert_node(), &mut c));
+    assert!(b == spec_boolean_of_number(x));
+    let n = bool_of(fh::not(vec![Value::Number(x)], inert_node(), &mut c));
+    assert!(n == !spec_boolean_of_number(x));
+}
+
+//@harness name=c09_boolean_boolean fn=xpath::func::boolean ob=boolean_is_identity kind=complete inputs=a0:booln op=xpath.func.boolean props=C09
+//@        claim="boolean(b) = b, not(b) = !b, true() and false() are the constants"
+#[kani::proof]
+fn c09_boolean_boolean() {
+    let x: bool = kani::any();
+    kani::cover!(x);
+    let mut c = Context::default();
+    assert!(bool_of(fh::boolean(vec![Value::Boolean(x)], inert_node(), &mut c)) == x);
+    assert!(bool_of(fh::not(vec![Value::Boolean(x)], inert_node(), &mut c)) == !x);
+    assert!(bool_of(fh::ftrue(vec![], inert_node(), &mut c)));
+    assert!(!bool_of(fh::ffalse(vec![], inert_node(), &mut c)));
+}
+
+//@harness name=c09_number_number fn=xpath::func::number ob=number_of_number_is_identity kind=complete inputs=a0:f64n op=xpath.func.number props=C09
+//@        claim="for every f64 x: number(x) is x bit for bit (NaN stays NaN)"
+#[kani::proof]
+fn c09_number_number() {
+    let x: f64 = kani::any();
+    kani::cover!(x < 0.0);
+    let mut c = Context::default();
+    let r = number_of(fh::number(vec![Value::Number(x)], inert_node(), &mut c));
+    assert!(if x.is_nan() { r.is_nan() } else { r.to_bits() == x.to_bits() });
+}
+
+//@harness name=c09_number_boolean fn=xpath::func::number ob=true_is_one_false_is_zero kind=complete inputs=a0:booln op=xpath.func.number props=C09
+//@        claim="number(true) = 1, number(false) = +0"
+#[kani::proof]
+fn c09_number_boolean() {
+    let x: bool = kani::any();
+    kani::cover!(x);
+    let mut c = Context::default();
+    let r = number_of(fh::number(vec![Value::Boolean(x)], inert_node(), &mut c));
+    assert!(r.to_bits() == (if x { 1.0f64 } else { 0.0f64 }).to_bits());
+}
+
+fn num_val(v: Value) -> f64 {
+    match v {
+        Value::Number(x) => x,
+        _ => panic!("not a number"),
+    }
+}
+
+fn same_f64(a: f64, b: f64) -> bool {
+    (a.is_nan() && b.is_nan()) || a.to_bits() == b.to_bits()
+}
+
+//@harness name=c09_arith_add_sub fn=xpath::op::add_sub ob=ieee754_addition_subtraction kind=complete inputs=a0:f64n,a1:f64n op=xpath.op.add props=C09 tier=thorough
+//@        claim="for all f64 a, b: a + b and a - b on Value::Number are the IEEE 754 results (NaN for inf - inf)"
+#[kani::proof]
+fn c09_arith_add_sub() {
+    let a: f64 = kani::any();
+    let b: f64 = kani::any();
+    kani::cover!(a.is_infinite() && b.is_infinite());
+    assert!(same_f64(num_val(Value::Number(a) + Value::Number(b)), a + b));
+    assert!(same_f64(num_val(Value::Number(a) - Value::Number(b)), a - b));
+    // declarative anchors, independent of the `+` above
+    if a.is_nan() || b.is_nan() {
+        assert!(num_val(Value::Number(a) + Value::Number(b)).is_nan());
+    }
+    if a == f64::INFINITY && b == f64::NEG_INFINITY {
+        assert!(num_val(Value::Number(a) + Value::Number(b)).is_nan());
+    }
+    if b == 0.0 && !a.is_nan() && a != 0.0 {
+        assert!(num_val(Value::Number(a) + Value::Number(b)).to_bits() == a.to_bits());
+        assert!(num_val(Value::Number(a) - Value::Number(b)).to_bits() == a.to_bits());
+    }
+}
+
+//@harness name=c09_arith_mul fn=xpath::op::mul ob=ieee754_multiplication kind=complete inputs=a0:f64n,a1:f64n op=xpath.op.mul props=C09 tier=thorough
+//@        claim="for all f64 a, b: a * b on Value::Number is the IEEE 754 product (inf * 0 = NaN)"
+#[kani::proof]
+fn c09_arith_mul() {
+    let a: f64 = kani::any();
+    let b: f64 = kani::any();
+    kani::cover!(a.is_infinite() && b == 0.0);
+    assert!(same_f64(num_val(Value::Number(a) * Value::Number(b)), a * b));
+}
+
+//@harness name=c09_arith_div fn=xpath::op::div ob=ieee754_division kind=complete inputs=a0:f64n,a1:f64n op=xpath.op.div props=C09 tier=thorough
+//@        claim="for all f64 a, b: a div b on Value::Number is the IEEE 754 quotient (x div 0 = +-inf, 0 div 0 = NaN)"
+#[kani::proof]
+fn c09_arith_div() {
+    let a: f64 = kani::any();
+    let b: f64 = kani::any();
+    kani::cover!(b == 0.0 && a > 0.0);
+    assert!(same_f64(num_val(Value::Number(a) / Value::Number(b)), a / b));
+}
+
+//@harness name=c09_arith_neg fn=xpath::op::neg ob=unary_minus_negates kind=complete inputs=a0:f64n op=xpath.op.neg props=C09
+//@        claim="for every f64 a: -a has the magnitude of a and, for a != 0, the opposite sign; NaN stays NaN (the sign of a zero result is left open: XPath 1.0 does not spell it out)"
+#[kani::proof]
+fn c09_arith_neg() {
+    let a: f64 = kani::any();
+    kani::cover!(a > 1.0);
+    let r = num_val(-Value::Number(a));
+    if a.is_nan() {
+        assert!(r.is_nan());
+    } else if a == 0.0 {
+        assert!(r == 0.0);
+    } else {
+        assert!(r == -a && r.is_sign_negative() != a.is_sign_negative());
+    }
+}
+
+// `mod` (f64 `%`): CBMC 6.11 models fmod/frem as a nondeterministic value (the harness written for it failed on
+// `r.is_nan()` for a = NaN within 5 s), so the truncating-remainder clause is NOT decided by Kani.
+
+fn ok_bool(r: Result<bool, xml_xpath::eval::error::Error>) -> bool {
+    match r {
+        Ok(v) => v,
+        _ => panic!("comparison failed"),
+    }
+}
+
+fn b2n(b: bool) -> f64 {
+    if b {
+        1.0
+    } else {
+        0.0
+    }
+}
+
+use xml_xpath::eval::verif_hooks as ch;
+
+//@harness name=c09_cmp_number_number fn=xpath::cmp::number_number ob=numbers_compare_as_ieee754 kind=complete inputs=a0:f64n,a1:f64n op=xpath.cmp.equal_value props=C09
+//@        claim="for all f64 a, b: = != < <= > >= on two numbers are the IEEE 754 comparisons (every comparison with NaN is false except !=)"
+#[kani::proof]
+fn c09_cmp_number_number() {
+    let a: f64 = kani::any();
+    let b: f64 = kani::any();
+    kani::cover!(a.is_nan());
+    let (x, y) = (Value::Number(a), Value::Number(b));
+    assert!(ok_bool(ch::equal_value(&x, &y)) == (a == b));
+    assert!(ok_bool(ch::not_equal_value(&x, &y)) == (a != b));
+    assert!(ok_bool(ch::less_than_value(&x, &y)) == (a < b));
+    assert!(ok_bool(ch::less_eq_value(&x, &y)) == (a <= b));
+    assert!(ok_bool(ch::greater_than_value(&x, &y)) == (a > b));
+    assert!(ok_bool(ch::greater_eq_value(&x, &y)) == (a >= b));
+}
+
+//@harness name=c09_cmp_boolean_number fn=xpath::cmp::boolean_number ob=equality_coerces_to_boolean_order_coerces_to_number kind=complete inputs=a0:booln,a1:f64n op=xpath.cmp.equal_value props=C09
+//@        claim="for every bool a and f64 b, both operand orders: = and != compare boolean(b) with a; < <= > >= compare number(a) with b (XPath 3.4)"
+#[kani::proof]
+fn c09_cmp_boolean_number() {
+    let a: bool = kani::any();
+    let b: f64 = kani::any();
+    kani::cover!(a && b.is_nan());
+    let (x, y) = (Value::Boolean(a), Value::Number(b));
+    let bb = spec_boolean_of_number(b);
+    assert!(ok_bool(ch::equal_value(&x, &y)) == (a == bb));
+    assert!(ok_bool(ch::equal_value(&y, &x)) == (a == bb));
+    assert!(ok_bool(ch::not_equal_value(&x, &y)) == (a != bb));
+    assert!(ok_bool(ch::not_equal_value(&y, &x)) == (a != bb));
+    let an = b2n(a);
+    assert!(ok_bool(ch::less_than_value(&x, &y)) == (an < b));
+    assert!(ok_bool(ch::less_than_value(&y, &x)) == (b < an));
+    assert!(ok_bool(ch::less_eq_value(&x, &y)) == (an <= b));
+    assert!(ok_bool(ch::less_eq_value(&y, &x)) == (b <= an));
+    assert!(ok_bool(ch::greater_than_value(&x, &y)) == (an > b));
+    assert!(ok_bool(ch::greater_than_value(&y, &x)) == (b > an));
+    assert!(ok_bool(ch::greater_eq_value(&x, &y)) == (an >= b));
+    assert!(ok_bool(ch::greater_eq_value(&y, &x)) == (b >= an));
+}
+
+//@harness name=c09_cmp_boolean_boolean fn=xpath::cmp::boolean_boolean ob=booleans_compare_as_booleans_and_order_as_numbers kind=complete inputs=a0:booln,a1:booln op=xpath.cmp.equal_value props=C09
+//@        claim="for all bools a, b: = and != compare the booleans; < <= > >= compare number(a) with number(b)"
+#[kani::proof]
+fn c09_cmp_boolean_boolean() {
+    let a: bool = kani::any();
+    let b: bool = kani::any();
+    kani::cover!(a && !b);
+    let (x, y) = (Value::Boolean(a), Value::Boolean(b));
+    assert!(ok_bool(ch::equal_value(&x, &y)) == (a == b));
+    assert!(ok_bool(ch::not_equal_value(&x, &y)) == (a != b));
+    assert!(ok_bool(ch::less_than_value(&x, &y)) == (b2n(a) < b2n(b)));
+    assert!(ok_bool(ch::less_eq_value(&x, &y)) == (b2n(a) <= b2n(b)));
+    assert!(ok_bool(ch::greater_than_value(&x, &y)) == (b2n(a) > b2n(b)));
+    assert!(ok_bool(ch::greater_eq_value(&x, &y)) == (b2n(a) >= b2n(b)));
 }
